@@ -507,6 +507,10 @@ func init() {
 			for _, src := range c05Regex() {
 				kC05.Do(c, c05Case{Src: src, Alias: 0})
 			}
+			// the caller's slice of variable values
+			for _, t := range c05ValuesCases() {
+				kC05Values.Do(c, t)
+			}
 			// containers with many members in error messages, previews and texts: which members show must not depend on the
 			// order a Go map is walked in (the reruns of a case have to agree to the byte)
 			for _, nkeys := range []int{3, 9, 17, 40, 300} {
